@@ -2,7 +2,8 @@
   Protocol operation tying the READER of JavaScript text (Spec/JsParse: tokenizer, parser, reading as the ASTs of
   Spec/JsSemRef / Spec/JsStmt) to a JavaScript engine's parser and to the generator.
 
-  jsparse  fields: JavaScript text (hex), compiled files `(files (file NAME cmds…) …)` or `(files)`, file name (hex)
+  jsparse  fields: JavaScript text (hex), compiled files `(files (file NAME cmds…) …)` or `(files)`, file name (hex),
+           [globals `(m (KEY value)…)` as in jsgen: the table the bundle was compiled with]
            The text (REAL soyjs.Write output, or a corrupted variant) is read with `jsParseFile`.  When the compiled
            file is given and every template of it is in the fragment (Props/C04f `toFile`), the functions read are
            compared with the model's translation (in the canonical form of Props/C14c).
@@ -15,6 +16,7 @@
 -/
 import SoyVerif.Ops.Common
 import SoyVerif.Ops.Check
+import SoyVerif.Ops.JsGen
 import SoyVerif.Props.C14c
 
 namespace SoyVerif.Ops.JsParse
@@ -43,6 +45,7 @@ def showE : JsExpr → String
   | .nonNullElse a a' b => s!"(elvis {showE a} {showE a'} {showE b})"
   | .local g => s!"(local {hx g})"
   | .optData k => s!"(optData {hx k})"
+  | .ijData => "ijData"
   | .member x k => s!"(member {showE x} {hx k})"
   | .index x i => s!"(index {showE x} {i})"
   | .guard g r => s!"(guard {showE g} {showE r})"
@@ -88,6 +91,10 @@ mutual
     | .switchS e cases => s!"(switch {showE e} {showCases cases})"
     | .call b callee base params =>
       s!"(call {hx b} {hx callee} {showBase base} [{" ".intercalate (params.map fun kv => s!"({hx kv.1} {showE kv.2})")}])"
+    | .ifZero idx body => s!"(ifZero {hx idx} {showSs body})"
+    | .pluralS e cases dflt => s!"(plural {showE e} {showPlural cases} {showSs dflt})"
+    | .appendCss b e => s!"(appendCss {hx b} {showE e})"
+    | .debuggerS => "debugger"
   def showSs : JsStmts → String
     | .nil => "()"
     | .cons s r => s!"({showS s} . {showSs r})"
@@ -99,6 +106,9 @@ mutual
     | .nil => "()"
     | .dflt body => s!"(default {showSs body})"
     | .cons labels body rest => s!"(case [{" ".intercalate (labels.map showE)}] {showSs body} {showCases rest})"
+  def showPlural : JsPlural → String
+    | .nil => "()"
+    | .cons v body rest => s!"(case {v} {showSs body} {showPlural rest})"
 end
 
 def showF (f : JsFunc) : String := s!"(func {hx f.name} {f.optional} {showSs f.body})"
@@ -106,7 +116,7 @@ def showF (f : JsFunc) : String := s!"(func {hx f.name} {f.optional} {showSs f.b
 def showFs (fs : List JsFunc) : String := "[" ++ " ".intercalate (fs.map showF) ++ "]"
 
 /-- the translation of the file, if the model has one -/
-def translation (files fname : String) : Option (Option (List JsFunc)) :=
+def translation [SoyVerif.Props.C04c.Globals] (files fname : String) : Option (Option (List JsFunc)) :=
   match Check.decFiles files, Bytes.ofHex fname with
   | some fs, some fnm =>
     (match fs.find? (·.name == fnm) with
@@ -114,27 +124,38 @@ def translation (files fname : String) : Option (Option (List JsFunc)) :=
       | none => some none)
   | _, _ => none
 
+/-- the answer for a decoded request -/
+def run (text : Bytes) (files fname : String) (gs : List (Bytes × Value)) : String :=
+  letI : SoyVerif.Props.C04c.Globals := ⟨gs⟩
+  match translation files fname with
+  | none => "BADTREE"
+  | some tr =>
+    let tag := if tr.isSome then "AST" else "NOAST"
+    match jsLex text with
+    | none => "REJECT LEX " ++ tag
+    | some ts =>
+      match parseProgram ts with
+      | none => "REJECT PARSE " ++ tag
+      | some p =>
+        match readProgram p with
+        | none => "REJECT READ " ++ tag
+        | some fs =>
+          match tr with
+          | none => s!"ACCEPT {fs.length} NOAST"
+          | some want =>
+            if showFs fs == showFs want then s!"ACCEPT {fs.length} SAME"
+            else s!"ACCEPT {fs.length} DIFF {showFs fs} {showFs want}"
+
 def ops : List Op := [
   ("jsparse", fun f => match f with
     | [textH, files, fname] =>
-      match Bytes.ofHex textH, translation files fname with
-      | some text, some tr =>
-        let tag := if tr.isSome then "AST" else "NOAST"
-        (match jsLex text with
-          | none => "REJECT LEX " ++ tag
-          | some ts =>
-            match parseProgram ts with
-            | none => "REJECT PARSE " ++ tag
-            | some p =>
-              match readProgram p with
-              | none => "REJECT READ " ++ tag
-              | some fs =>
-                match tr with
-                | none => s!"ACCEPT {fs.length} NOAST"
-                | some want =>
-                  if showFs fs == showFs want then s!"ACCEPT {fs.length} SAME"
-                  else s!"ACCEPT {fs.length} DIFF {showFs fs} {showFs want}")
-      | _, _ => "BADTREE"
+      (match Bytes.ofHex textH with
+        | some text => run text files fname []
+        | none => "BADTREE")
+    | [textH, files, fname, globalsS] =>
+      (match Bytes.ofHex textH, Ops.JsGen.decGlobals globalsS with
+        | some text, some gs => run text files fname gs
+        | _, _ => "BADTREE")
     | _ => "BADREQ")
 ]
 
